@@ -78,9 +78,13 @@ def check(ctx):
     if not fpaths:
         raise AnalysisError(f"{qf}: no returning partition")
     pcol, socol = col("pvt_props", "pressure"), col("pvt_props", "So")
-    for pi, fp_ in enumerate(fpaths):
-        tag = "" if len(fpaths) == 1 else f" [path {pi + 1}: " + ", ".join(("" if c else "not ") + d[:60] for _k, c, d in fp_.decisions) + "]"
-        _from_table_path(ctx, it2, fp_, qf, ff, q, qa, pcol, socol, tag)
+    direct = all(any(e.kind == "int_call" and e.data["callee"] == c and e.func == qf for e in fp_.events) for fp_ in fpaths for c in (q, qa))
+    if direct:
+        for pi, fp_ in enumerate(fpaths):
+            tag = "" if len(fpaths) == 1 else f" [path {pi + 1}: " + ", ".join(("" if c else "not ") + d[:60] for _k, c, d in fp_.decisions) + "]"
+            _from_table_path(ctx, it2, fp_, qf, ff, q, qa, pcol, socol, tag)
+    else:
+        _from_table_by_value(ctx, qf, ff, q, qa, cls, pcol, socol)
     from .common import check_interp_options
 
     check_interp_options(ctx, "C15-d", ["bluebonnet.flow.flowproperties"], 5)
@@ -165,6 +169,77 @@ def _from_table_path(ctx, it2, fp_, qf, ff, q, qa, pcol, socol, tag):
         it2.to_nf(a.get("p_i")) == nf.sym("p_i"), "C15-c", qf + ":wrapper p_i" + tag, where,
         "the wrapper is built at the caller's initial pressure", signature="p_i",
     )
+
+
+def _from_table_by_value(ctx, qf, ff, q, qa, cls, pcol, socol):
+    """from_table does not call pseudopressure_threephase / alpha_multiphase itself (it shares intermediate results,
+    say): the columns it hands to the wrapper must then *equal* what those two functions return for the table's
+    pressure and So columns and the interpolator tables it built - evaluated in the same trace partition."""
+    from ..values import FuncV, Inst
+
+    P = ctx.P
+    ql, qc = FP + "lambda_combined_func", FP + "compressibility_combined_func"
+    it3 = interp(ctx)
+
+    def table_problems(d, keys, table, xkey):
+        bad = []
+        if not isinstance(d, DictV):
+            return ["not a dict of interpolators"]
+        for k in keys:
+            v = d.items.get(k)
+            if not (isinstance(v, ExtObj) and v.qual == "scipy.interpolate.interp1d"):
+                bad.append(f"{k}: not an interp1d")
+                continue
+            if it3.to_nf(v.args.get("x")) != col(table, xkey):
+                bad.append(f"{k}: abscissa is {nf.show(it3.to_nf(v.args.get('x')), 80)}")
+            if it3.to_nf(v.args.get("y")) != col(table, k):
+                bad.append(f"{k}: ordinate is {nf.show(it3.to_nf(v.args.get('y')), 80)}")
+        return bad
+
+    def runner(x):
+        fi = P.func(qf)
+        bound = x.symbolic_args(fi)
+        bound["cls"] = ClassV(cls)
+        val = x._exec_function(fi, {k: v for k, v in bound.items()}, None, None, fi.cls)
+        src = [e for e in x.events if e.kind == "int_call" and e.data["callee"] in (q, qa, ql, qc) and "pvt" in e.data["args"]]
+        pvt = next((e.data["args"]["pvt"] for e in src), None)
+        kr = next((e.data["args"]["kr"] for e in src if "kr" in e.data["args"]), None)
+        if pvt is None or kr is None:
+            return val
+        pr = next(e.data["args"]["pressure"] for e in src)
+        so = next(e.data["args"]["So"] for e in src)
+        x.log("marker", ff.node, name="reference")
+        ref_m = x.call(FuncV(P.func(q), None), [pr, so, pvt, kr], {}, ff.node, None)
+        ref_a = x.call(FuncV(P.func(qa), None), [pr, so, Num(nf.sym("phi")), Num(nf.sym("Sw")), pvt, kr], {}, ff.node, None)
+        x.log("reference", ff.node, m=ref_m, alpha=ref_a, pvt=pvt, kr=kr, pressure=pr, So=so)
+        return val
+
+    n = 0
+    for fp_ in returns(it3.explore(runner)):
+        ref = [e for e in fp_.events if e.kind == "reference"]
+        mark = next((k for k, e in enumerate(fp_.events) if e.kind == "marker" and e.data.get("name") == "reference"), len(fp_.events))
+        cons = [e for e in fp_.events[:mark] if e.kind == "construct" and isinstance(e.data["args"].get("pvt_props"), DictV)]
+        if len(ref) != 1 or len(cons) != 1:
+            ctx.bad("C15-c", qf + ":wiring", ff.where(), "from_table builds interpolator tables, evaluates mobility / diffusivity / pseudopressure on the table's columns and hands them to one wrapper", signature="from_table shape", references=len(ref), constructions=len(cons))
+            continue
+        r = ref[0].data
+        n += 1
+        probs = []
+        if it3.to_nf(r["pressure"]) != pcol:
+            probs.append("pressure <- " + nf.show(it3.to_nf(r["pressure"]), 80))
+        if it3.to_nf(r["So"]) != socol:
+            probs.append("So <- " + nf.show(it3.to_nf(r["So"]), 80))
+        probs += ["pvt " + x for x in table_problems(r["pvt"], PVT_KEYS, "pvt_props", "pressure")]
+        probs += ["kr " + x for x in table_problems(r["kr"], KR_KEYS, "kr_props", "So")]
+        ctx.check(not probs, "C15-c", qf + ":interpolator tables", ff.where(), "the functions are evaluated on the table's pressure and So columns with interpolators keyed by the column they interpolate (x = pressure / So)", signature="; ".join(probs)[:200], problems=probs)
+        d = cons[0].data["args"]["pvt_props"]
+        where = f"{ff.file}:{cons[0].line}"
+        for k, want, what in (("pressure", pcol, "the table's pressure column"), ("pseudopressure", it3.to_nf(r["m"]), "what pseudopressure_threephase returns for these columns and tables"), ("alpha", it3.to_nf(r["alpha"]), "what alpha_multiphase returns for these columns and tables")):
+            v = d.items.get(k)
+            vn = it3.to_nf(v) if v is not None else None
+            ctx.check(vn is not None and nf.equal(vn, want), "C15-c", qf + f":wrapper['{k}']", where, f"the wrapper's '{k}' column is " + what, signature=f"wrapper {k}", found=nf.show(vn, 160) if vn is not None else "missing")
+        ctx.check(it3.to_nf(cons[0].data["args"].get("p_i")) == nf.sym("p_i"), "C15-c", qf + ":wrapper p_i", where, "the wrapper is built at the caller's initial pressure", signature="p_i")
+    ctx.floor("C15-c", n, 1, "from_table partitions")
 
 
 def _is_root(it, v):
